@@ -119,10 +119,18 @@ fn client_loop(addr: String, ci: usize, role: String, stop: Arc<AtomicBool>, see
             n += 1;
             let qid = format!("{}.q{}", cid, n);
             let t_send = now_ns();
+            // every fifth client is impatient: it gives a statement 120 ms and then resets its
+            // connection (well before the pooler's statement timeout fires on a hung server)
+            let impatient = ci % 5 == 4;
             let r = c.query(
                 &format!("SELECT 1 {}", tag(&cid, &qid, &format!("rows=1 sleep={}", rng.range(0, 4)))),
-                60_000,
+                if impatient { 120 } else { 60_000 },
             );
+            if impatient && matches!(&r, Err((_, crate::wire::ReadErr::Timeout))) {
+                c.close_rst();
+                sleep_ms(20);
+                continue 'outer;
+            }
             let t_done = now_ns();
             match r {
                 Ok(m) => {
@@ -208,7 +216,7 @@ fn random_faults(seed: u64, thorough: bool, rep: &Report) -> Result<(), String> 
         } else {
             *rng.pick(&all)
         };
-        let kind = *rng.pick(&["down", "accept_hang", "hang_on_query", "hc_hang", "hc_hang", "close_mid_reply", "slow", "admin_ban", "admin_ban_unban"]);
+        let kind = *rng.pick(&["down", "accept_hang", "hang_on_query", "hang_on_query", "hc_hang", "hc_hang", "close_mid_reply", "slow", "admin_ban", "admin_ban_unban"]);
         let ctl = lay.cell.mocks[target].ctl.clone();
         let t_on = now_ns();
         match kind {
@@ -241,7 +249,7 @@ fn random_faults(seed: u64, thorough: bool, rep: &Report) -> Result<(), String> 
             _ => {}
         }
         // sample SHOW BANS while the fault is on
-        let hold = if kind == "hc_hang" { rng.range(800, 1400) } else { rng.range(300, 1200) };
+        let hold = if kind == "hc_hang" || kind == "hang_on_query" { rng.range(800, 1400) } else { rng.range(300, 1200) };
         let t_end = now_ns() + hold * 1_000_000;
         while now_ns() < t_end {
             if let Ok(rows) = admin_rows(&mut adm, "SHOW BANS") {
@@ -364,6 +372,29 @@ fn random_faults(seed: u64, thorough: bool, rep: &Report) -> Result<(), String> 
                         );
                     } else {
                         rep.count("unanswered_health_checks_followed_by_ban", 1);
+                    }
+                }
+            }
+        }
+    }
+    // (i) a replica that sits on a client statement beyond the statement timeout is banned, whether or
+    // not the client is still there to be told
+    for e in lay.cell.log.snapshot() {
+        if let Ev::MockMsg { b, typ, qid: Some(q), .. } = &e.ev {
+            if *typ == b'Q' && lay.replicas.contains(b) {
+                let t0 = e.t;
+                let hung = faults.iter().any(|f| f.mock == *b && f.kind == "hang_on_query" && f.t_on <= t0 && f.t_off >= t0 + (STMT_MS + 300) * 1_000_000);
+                if hung && t0 + (STMT_MS + 1500) * 1_000_000 < t_end {
+                    rep.count("statements_hung_beyond_statement_timeout", 1);
+                    let banned = ban_events.iter().any(|x| x.1 == *b && x.0 + 50_000_000 >= t0 && x.0 <= t0 + (STMT_MS + 1500) * 1_000_000);
+                    let already = ban_events.iter().any(|x| x.1 == *b && x.0 < t0 && x.0 + lay.ban_time * 1_000_000_000 > t0);
+                    if !banned && !already {
+                        rep.violation(
+                            "C07|replica_hung_on_a_statement_beyond_statement_timeout_was_not_banned",
+                            &format!("{} received {} and did not answer within the statement timeout ({} ms); no ban followed", labels[*b], q, STMT_MS),
+                            json!({"seed": seed, "faults": faults.iter().map(|f| format!("{} {} [{}..{}]", labels[f.mock], f.kind, f.t_on, f.t_off)).collect::<Vec<_>>(),
+                                   "bans": ban_events.iter().map(|b| format!("{} {} {}", b.0, labels[b.1], b.2)).collect::<Vec<_>>()}),
+                        );
                     }
                 }
             }
@@ -610,6 +641,96 @@ fn scripted(seed: u64, rep: &Report) -> Result<(), String> {
 }
 
 /// Two shards: bans in one shard must not influence the other (unban-all is per shard).
+/// One replica sits on every statement (never answers), the other is healthy; clients that give
+/// up after 120 ms and reset their connection, and clients that wait. Either way the hung replica
+/// must be banned once the statement timeout has passed, and then be left alone.
+fn hung_replica_and_impatient_clients(seed: u64, rep: &Report) -> Result<(), String> {
+    let mut rng = Rng::new(seed);
+    let mut lay = build(&mut rng, 2, true, false)?;
+    let hung = lay.replicas[0];
+    let labels = lay.cell.labels();
+    let addr = lay.cell.addr();
+    let impatient = rng.chance(2, 3);
+    // the replica either hangs on everything (also on the pooler's own round trips: health check,
+    // parameter sync) or only on client statements (the statement timeout is what detects it)
+    let everything = rng.chance(1, 2);
+    if everything {
+        lay.cell.mocks[hung].ctl.q_hang.store(true, Ordering::SeqCst);
+    } else {
+        lay.cell.mocks[hung].ctl.tag_hang.store(true, Ordering::SeqCst);
+    }
+    let t_on = now_ns();
+    let mut reached_hung = 0;
+    for k in 0..12 {
+        let mut c = Conn::connect(&addr, &StartupOpts::new(USER, "db", PASS).app("imp")).map_err(|e| e.to_string())?;
+        let _ = c.query("SET SERVER ROLE TO 'replica'", 5000);
+        let qid = format!("imp.q{}", k);
+        let r = c.query(&format!("SELECT 1 {}", tag("imp", &qid, "rows=1")), if impatient { 120 } else { 5000 });
+        match r {
+            Err((_, crate::wire::ReadErr::Timeout)) => {
+                reached_hung += 1;
+                c.close_rst();
+            }
+            Ok(m) => {
+                if first_error(&m).is_some() {
+                    reached_hung += 1;
+                }
+                c.terminate();
+            }
+            Err((m, e)) => {
+                reached_hung += 1;
+                if !impatient && e == crate::wire::ReadErr::Timeout {
+                    rep.violation(
+                        &format!("C07|client_blocked_beyond_configured_timeouts|hangs_on={}", if everything { "every_message" } else { "client_statements" }),
+                        &format!("a client waited 5 s for {} (connect / health-check / statement timeouts are {}/{}/{} ms) while {} hung; got {}", qid, CONNECT_MS, HC_MS, STMT_MS, labels[hung], summarize(&m)),
+                        json!({"seed": seed, "log": lay.cell.pg().log_tail(6)}),
+                    );
+                }
+            }
+        }
+        if reached_hung >= 1 {
+            break;
+        }
+    }
+    if reached_hung == 0 {
+        return Err("no statement reached the hung replica".into());
+    }
+    // statement timeout (400 ms) + slack
+    sleep_ms(STMT_MS + 700);
+    rep.count("hung_replica_scenarios", 1);
+    let needle = format!("\"host\":\"{}\",\"port\":{}", lay.cell.mocks[hung].host(), lay.cell.mocks[hung].port);
+    let banned = lay.cell.pg().events().iter().any(|(t, k, line)| k == "ban" && *t >= t_on && line.contains(&needle));
+    if !banned {
+        rep.violation(
+            &format!("C07|replica_hung_on_a_statement_beyond_statement_timeout_was_not_banned|client={}|hangs_on={}", if impatient { "reset_its_connection_first" } else { "waited" }, if everything { "every_message" } else { "client_statements" }),
+            &format!("{} sat on a client statement for more than the statement timeout ({} ms); the client {}; no ban followed", labels[hung], STMT_MS, if impatient { "had reset its connection after 120 ms" } else { "waited for the pooler's error" }),
+            json!({"seed": seed, "needle": needle, "events": lay.cell.pg().events().iter().filter(|e| e.1.starts_with("ban")).map(|e| format!("{} {} {}", e.0, e.1, e.2)).collect::<Vec<_>>(), "reached_hung": reached_hung, "log": lay.cell.pg().log_text().lines().filter(|l| l.contains("Banning") || l.contains("timeout") || l.contains("ERROR")).map(|l| l.chars().take(200).collect::<String>()).collect::<Vec<_>>()}),
+        );
+    }
+    // while it is banned (and still hung) patient clients are served by the other replica at once
+    for k in 0..6 {
+        let mut c = Conn::connect(&addr, &StartupOpts::new(USER, "db", PASS).app("pat")).map_err(|e| e.to_string())?;
+        let _ = c.query("SET SERVER ROLE TO 'replica'", 5000);
+        let qid = format!("pat.q{}", k);
+        let t0 = now_ns();
+        let r = c.query(&format!("SELECT 1 {}", tag("pat", &qid, "rows=1")), 5000);
+        let ms = (now_ns() - t0) / 1_000_000;
+        let ok = matches!(&r, Ok(m) if first_error(m).is_none());
+        if banned && (!ok || ms > 300) {
+            rep.violation(
+                "C07|banned_hung_replica_still_tried",
+                &format!("after {} had been banned for hanging, a replica transaction took {} ms / failed ({})", labels[hung], ms, match &r { Ok(m) => summarize(m), Err((m, e)) => format!("{:?} {}", e, summarize(m)) }),
+                json!({"seed": seed}),
+            );
+            break;
+        }
+        c.terminate();
+    }
+    lay.cell.mocks[hung].ctl.q_hang.store(false, Ordering::SeqCst);
+    lay.cell.mocks[hung].ctl.tag_hang.store(false, Ordering::SeqCst);
+    Ok(())
+}
+
 fn scripted_multishard(seed: u64, rep: &Report) -> Result<(), String> {
     use crate::pgcat::{ShardCfg, UserCfg};
     let mut rng = Rng::new(seed);
@@ -689,7 +810,7 @@ pub fn run(tier: &str) -> i32 {
         "C07",
         tier,
         "fault_enumeration",
-        "random leg: shards with 1-3 replicas, with/without primary, both load-balancing modes, health check always/never, 6-14 looping clients with role any/primary/replica, fault scripts of 1-6 steps over {down, accept-and-hang, hang on query, health-check hang, close mid-reply, slow, admin BAN, BAN+UNBAN}; oracles on the mock log (incl. every health check left unanswered beyond its timeout must be followed by a ban), client outcomes/latencies, pgcat ban hook events and SHOW BANS samples, with happens-before margins; scripted leg: admin BAN / UNBAN / all-banned => unban-all / ban expiry / primary never banned; distinct = distinct (layout, fault kinds) scripts",
+        "random leg: shards with 1-3 replicas, with/without primary, both load-balancing modes, health check always/never, 6-14 looping clients with role any/primary/replica, fault scripts of 1-6 steps over {down, accept-and-hang, hang on query, health-check hang, close mid-reply, slow, admin BAN, BAN+UNBAN}; oracles on the mock log (incl. every health check left unanswered beyond its timeout must be followed by a ban), client outcomes/latencies, pgcat ban hook events and SHOW BANS samples, with happens-before margins; scripted legs: a replica hung on a statement with clients that wait or reset their connection first => banned; admin BAN / UNBAN / all-banned => unban-all / ban expiry / primary never banned; distinct = distinct (layout, fault kinds) scripts",
     );
     rep.assume("a statement is judged against a ban only if sent >20 ms after pgcat's ban hook event and before ban_time elapsed, with no UNBAN and not all replicas banned");
     rep.assume("an error is excused only if the statement reached a server that had a fault active, or no candidate of the requested role was continuously healthy and untouched for ban_time+2 s before");
@@ -701,6 +822,8 @@ pub fn run(tier: &str) -> i32 {
         rep.eval(1);
         let r = if i % 6 == 5 {
             scripted(seeds[i], &rep)
+        } else if i % 12 == 3 {
+            hung_replica_and_impatient_clients(seeds[i], &rep)
         } else if i % 6 == 4 {
             scripted_multishard(seeds[i], &rep)
         } else {
